@@ -1,0 +1,28 @@
+//go:build verif
+
+package hamt
+
+// Verification hooks (build tag "verif" only): expose the reader-side hash
+// bit extraction and the memoisation state of a shard node.
+
+// VerifHashBitsNext consumes widths[i] bits one after another from b with the
+// reader-side hashBits helper and returns the extracted values; it stops at
+// the first error.
+func VerifHashBitsNext(b []byte, widths []int) ([]int, error) {
+	hb := &hashBits{b: b}
+	out := make([]int, 0, len(widths))
+	for _, w := range widths {
+		v, err := hb.Next(w)
+		if err != nil {
+			return out, err
+		}
+		out = append(out, v)
+	}
+	return out, nil
+}
+
+// VerifShardState reports the memoised length (-1 when cold) and the number
+// of cached child shards of a shard node.
+func VerifShardState(n UnixFSHAMTShard) (cachedLength int64, cachedChildren int) {
+	return n.cachedLength, len(n.shardCache)
+}
